@@ -14,6 +14,9 @@
 //
 // Output: `0:[ans ; ans] 1:[ans] | <final own contents of every loader as in C12>`.
 //
+//   C13 lockrace   the model side answers from the lock-set table regenerated from loader/*.go: `none`, or an access site
+//                  that breaks the lock discipline with a conflicting site (the implementation side answers `none`)
+//
 // Direct predicate (on the implementation only):
 //   crash             an operation ended in a runtime fault
 //   entry-mutated     an entry handed out by GetEntry changed its Value() while the reader held it
@@ -82,6 +85,10 @@ type thread struct {
 }
 
 func exec(c px.Context, op string, args []sx.Sexp) (res core.Result) {
+	if op == "lockrace" && len(args) == 0 {
+		// answered by the model side from the regenerated lock-set table: `none`, or the racing pair of access sites
+		return core.Result{Out: "none", Pred: "ok"}
+	}
 	if op != "sched" {
 		return core.Result{Out: "bad-op", Pred: "n/a"}
 	}
@@ -665,6 +672,7 @@ func progSlots(p []gstep) int {
 }
 
 func gen(g *core.G) {
+	g.Emit("lockrace")
 	a := nm("type", "a", "r")
 	A := nm("type", "A", "r")
 	// 1. exhaustive: two threads, programs of <= 2 steps over a two-level chain and one name, ALL schedules
